@@ -1223,6 +1223,8 @@ enum Mutn {
     Wrap(u8),
     Unwrap(u8),
     Fresh(MT),
+    /// same left-to-right sequence of atoms, other nesting: << <<a b c>> p o >> <-> << a b <<c p o>> >>
+    Rebracket,
 }
 fn flip_case(t: &str, how: u8) -> String {
     match how % 4 {
@@ -1323,6 +1325,12 @@ fn apply(a: &MT, mu: &Mutn) -> MT {
             }
         }
         (Mutn::Unwrap(i), MT::Triple(t)) => t[(*i % 3) as usize].clone(),
+        (Mutn::Rebracket, MT::Triple(t)) => match (&t[0], &t[2]) {
+            (MT::Triple(i), _) => MT::triple(i[0].clone(), i[1].clone(), MT::triple(i[2].clone(), t[1].clone(), t[2].clone())),
+            (_, MT::Triple(i)) => MT::triple(MT::triple(t[0].clone(), t[1].clone(), i[0].clone()), i[1].clone(), i[2].clone()),
+            // a flat triple: nest it first (the partner is then the other bracketing of the same five atoms)
+            _ => MT::triple(MT::triple(t[0].clone(), t[1].clone(), t[2].clone()), t[1].clone(), t[2].clone()),
+        },
         (Mutn::Fresh(m), _) => m.clone(),
         // mutation not applicable to this kind: keep the term (an equal pair)
         (_, x) => x.clone(),
@@ -1356,6 +1364,7 @@ fn mutn(depth: u32) -> BoxedStrategy<Mutn> {
         1 => any::<u8>().prop_map(Mutn::Wrap),
         1 => any::<u8>().prop_map(Mutn::Unwrap),
         2 => any_term(1).prop_map(Mutn::Fresh),
+        2 => Just(Mutn::Rebracket),
     ];
     if depth == 0 {
         leaf.boxed()
@@ -1398,6 +1407,12 @@ fn fixed() -> Vec<Case> {
             c: tr(MT::iri("http://x/a"), p.clone(), MT::bn("b")),
         },
         Case { a: MT::var("x"), b: tr(MT::var("x"), MT::var("x"), MT::var("x")), c: MT::bn("x") },
+        // the same five atoms under the three possible nestings
+        Case {
+            a: tr(tr(MT::iri("http://x/a"), p.clone(), MT::iri("http://x/c")), p.clone(), MT::bn("b")),
+            b: tr(MT::iri("http://x/a"), p.clone(), tr(MT::iri("http://x/c"), p.clone(), MT::bn("b"))),
+            c: tr(tr(MT::iri("http://x/a"), p.clone(), MT::iri("http://x/c")), p.clone(), tr(MT::iri("http://x/c"), p.clone(), MT::bn("b"))),
+        },
         Case { a: MT::iri(rdf("type")), b: MT::iri(xsd("string")), c: MT::string(xsd("string")) },
         Case { a: MT::bn("b1"), b: MT::bn("b10"), c: MT::bn("b2") },
         Case { a: MT::string(""), b: MT::lang("", "en"), c: MT::lit("", xsd("integer")) },
